@@ -366,6 +366,16 @@ class Check(Property):
         fr = Fraction(c["a"]["m"])
         if not (1e-250 < abs(float(fr)) < 1e250):
             return v
+        # float range: the intermediate factors of these unit powers must stay far from overflow / underflow
+        try:
+            for k, e in c["a"]["u"]:
+                f, _ = P.proj.root({k: Fraction(1)})
+                lg = abs(math.log10(abs(float(f)))) * abs(float(Fraction(e))) if f != 0 else 999
+                if lg > 60:
+                    self.bump("float range (types not compared)")
+                    return v
+        except Exception:  # noqa: BLE001
+            return v
         variants = [("float", regs.ureg("float"), float(fr)),
                     ("decimal", regs.ureg("decimal"), Decimal(fr.numerator) / Decimal(fr.denominator)),
                     ("ufloat", regs.ureg("float"), ufloat(float(fr), abs(float(fr)) / 8))]
@@ -386,6 +396,8 @@ class Check(Property):
                         m = r.magnitude
                         nom = float(m.nominal_value) if hasattr(m, "nominal_value") else float(m)
                         got = nom * float(f)
+                        if not math.isfinite(got) or not math.isfinite(nom):
+                            continue
                         if not math.isclose(got, float(want[0]), rel_tol=1e-9):
                             v.append(f"C15 {q!r}.{h}() [{tname} magnitude] = {r!r}: physical value {got} differs from {float(want[0])}")
                         d = P.proj.dimensionality(units)
